@@ -230,3 +230,40 @@ Theorem C06_pst13_constant_term_moves_to_claim :
     plc_verifier_loop cm lab t (map (fun kv => if N.eqb (fst (fst kv)) lab then (fst kv, snd kv - coeff) else kv) ev) c.
 Proof. exact @plc_constant_term_moves_to_claim. Qed.
 Print Assumptions C06_pst13_constant_term_moves_to_claim.
+
+(* completeness of the trait's default open_combinations / check_combinations, for ANY scheme whose own open / check are complete
+   on one point (same final transcript state): when every claimed value is the stated combination of the true evaluations and the
+   equation query set has one point per point label, the verifier accepts and ends in the prover's transcript state.  Instance:
+   the linear codes (Ligero univariate / multilinear, Brakedown) *)
+From PC Require Import Proofs.DefaultBatchComplete Proofs.DefaultLCComplete.
+Theorem C06_default_combinations_complete :
+  forall (FO : FieldOps) (FL : FieldLaws FO) (Comm Item Proof St : Type)
+         (check : list Comm -> point -> list F -> Proof -> St -> res (bool * St))
+         (open : list Item -> point -> St -> res (Proof * St))
+         (R : Item -> Comm -> Prop) (value : Item -> point -> F),
+    (forall items cs pt st pf st', Forall2 R items cs -> open items pt st = Ok (pf, st') ->
+                                  check cs pt (map (fun it => value it pt) items) pf st = Ok (true, st')) ->
+    forall lcs items cs eqn_qs eqn_ev st pfs evs st',
+      maps_agree Comm Item R (label_map items) (label_map cs) ->
+      one_point_per_label eqn_qs ->
+      (forall q terms, In q eqn_qs -> OrdMap.lookup N.compare (fst q) (lcs_map lcs) = Some terms ->
+          lookup_pk (fst q, snd (snd q)) eqn_ev = Some (lc_value (item_value Item value (label_map items) (snd (snd q))) terms)) ->
+      default_open_combinations Item Proof St open value lcs items eqn_qs st = Ok (pfs, evs, st') ->
+      default_check_combinations Comm Proof St check lcs cs eqn_qs eqn_ev pfs (Some evs) st = Ok (true, st').
+Proof. exact @default_lc_complete. Qed.
+Print Assumptions C06_default_combinations_complete.
+
+From PC Require Import Schemes.Ligero Schemes.LinCodeList Proofs.LinCodeListFacts.
+Theorem C06_lincode_combinations_complete :
+  forall (FO : FieldOps) (FL : FieldLaws FO) tensor wf lcs items cs eqn_qs eqn_ev tape pfs evs rest,
+    maps_agree LCm (LCm * list (list F)) R_lc (label_map items) (label_map cs) ->
+    one_point_per_label eqn_qs ->
+    (forall q terms, In q eqn_qs -> OrdMap.lookup N.compare (fst q) (lcs_map lcs) = Some terms ->
+        lookup_pk (fst q, snd (snd q)) eqn_ev
+        = Some (LC.lc_value (item_value (LCm * list (list F)) (fun it pt => LinCodeListFacts.lc_value tensor pt it) (label_map items) (snd (snd q))) terms)) ->
+    default_open_combinations (LCm * list (list F)) (list LProof) (list sq_ev) (lc_open_list tensor wf)
+                              (fun it pt => LinCodeListFacts.lc_value tensor pt it) lcs items eqn_qs tape = Ok (pfs, evs, rest) ->
+    default_check_combinations LCm (list LProof) (list sq_ev) (lc_check_list tensor wf) lcs cs eqn_qs eqn_ev pfs (Some evs) tape
+    = Ok (true, rest).
+Proof. exact @lc_combinations_complete. Qed.
+Print Assumptions C06_lincode_combinations_complete.
